@@ -353,7 +353,7 @@ pub fn families(prop: &str, tier: Tier) -> Vec<Cfg> {
             a.io = IoMenu::partial();
             a.io.read_err = true;
             a.cancel = true;
-            a.broker.script = vec![inpub(2, 1), inpub(1, 65535), inpub(0, 0), inpub_rich(1, 258), inpub(2, 258)];
+            a.broker.script = vec![inpub(1, 1), inpub_rich(1, 258), inpub(2, 1), inpub(1, 65535), inpub(0, 0), inpub(2, 258)];
             a.broker.dup_retransmit = true;
             a.broker.stale_acks = true;
             a.broker.may_lose_session = true;
@@ -438,6 +438,18 @@ pub fn families(prop: &str, tier: Tier) -> Vec<Cfg> {
             a.max_conns = if q { 3 } else { 4 };
             a.max_reqs = if q { 2 } else { 3 };
             a.dev = if q { 1 } else { 2 };
+            // no client identifier configured: the broker may or may not assign one
+            let mut n = Cfg::base("C05-no-client-identifier-configured");
+            n.props = vec!["C05"];
+            n.client_id = "";
+            n.ops = vec![OpK::Pub1, OpK::Pub2, OpK::Sub, OpK::Poll, OpK::DropConn];
+            n.io = IoMenu::benign();
+            n.broker.may_lose_session = true;
+            n.broker.assigned_id = vec![None, Some("assigned-by-broker")];
+            n.max_ops = if q { 7 } else { 8 };
+            n.max_conns = if q { 3 } else { 4 };
+            n.max_reqs = 2;
+            n.dev = 0;
             let mut r = Cfg::base("C05-rich-packets-large-connect");
             r.must_reach = vec!["CONNECT of more than 127 bytes", "fresh broker session while requests were in flight", "replay of several packets on a resumed connection"];
             r.props = vec!["C05"];
@@ -463,9 +475,9 @@ pub fn families(prop: &str, tier: Tier) -> Vec<Cfg> {
                 b.family = "C05-handshake-variants-four-connections";
                 b.dev = 1;
                 a.max_conns = 3;
-                return vec![a, b, r];
+                return vec![a, b, r, n];
             }
-            vec![a, r]
+            vec![a, r, n]
         }
         "C06" => {
             let mut v = Vec::new();
@@ -713,6 +725,7 @@ pub fn families(prop: &str, tier: Tier) -> Vec<Cfg> {
             a.broker.bad_handshake = true;
             a.broker.garbage = true;
             a.broker.disconnect = true;
+            a.broker.may_lose_session = true;
             a.broker.script = vec![inpub(2, 5)];
             a.max_ops = if q { 5 } else { 6 };
             a.max_conns = if q { 2 } else { 3 };
@@ -1226,6 +1239,8 @@ pub fn families(prop: &str, tier: Tier) -> Vec<Cfg> {
             c.props = vec!["C18"];
             c.start_pid = Some(65534);
             c.ops = vec![OpK::Pub1, OpK::Pub2, OpK::Sub, OpK::Poll];
+            c.pub_retain = vec![false, true];
+            c.broker.ack_fail = true;
             c.io = IoMenu::benign();
             c.max_ops = if q { 8 } else { 9 };
             c.max_conns = 1;
